@@ -89,7 +89,7 @@ def split_runs(lines, rng):
 
 
 # ---- simulate_multiple_times --------------------------------------------------------------
-def _sim(system, index, spec, seed):
+def _sim(system, index, spec, seed=0, stretch=1):
     """module-level (picklable) simulation function: a merge line built from plain library objects
     (no harness closures, the returned System is pickled by worker processes)"""
     from simprocesd.model.factory_floor import Source, Sink, PartProcessor, Buffer, PartHandler
@@ -105,7 +105,7 @@ def _sim(system, index, spec, seed):
         else:
             prev = [Buffer(f'B{k}', prev, c / 16.0, capacity=2)]
     Sink('K', prev, 0)
-    system.simulate(horizon / 16.0, print_summary=False)
+    system.simulate(stretch * horizon / 16.0, print_summary=False)
 
 
 def canon_data(system):
@@ -127,7 +127,9 @@ def multi(spec, seed, n, procs):
     from simprocesd.model import System
     import impl
     impl.CTX = None          # the library's own random weights: no harness runner is active
-    systems = System.simulate_multiple_times(_sim, n, procs, spec, seed)
+    # one extra argument positionally, two by keyword (both have other defaults in `_sim`): the
+    # in-process branch and the worker branch must forward them alike
+    systems = System.simulate_multiple_times(_sim, n, procs, spec, seed=seed, stretch=2)
     return [canon_data(s) for s in systems]
 
 
